@@ -182,3 +182,101 @@ def units():
     us.append(RingUnit("Fq12::conjugate", P, dom("Fq12"), lambda c: {"this.c0": c.inp("a.c0"), "this.c1": -c.inp("a.c1")}))
     us.append(RingUnit("Fq2::norm", P, dom("Fq2"), lambda c: {"result": c.inp("this.c0") * c.inp("this.c0") + c.inp("this.c1") * c.inp("this.c1")}))
     return us
+
+
+# ---------------------------------------------------------------------------
+# Frobenius maps: frobenius_map(a, k) == a^(q^k) for EVERY a and every unsigned k.
+# The q-power map is F_q-linear, so it is decided by (1) the real code, executed symbolically over F_q leaves, computes an F_q-linear
+# map of its input whose matrix entries are products of the table constants, and (2) that matrix, evaluated with the dumped table
+# values, equals the matrix of x -> x^(q^k) computed in the reference tower (x^q by square-and-multiply on the basis, then k-fold
+# composition).  Index reduction (power & 1, power % 6, power % 12) is covered by testing k beyond the table sizes.
+def frobenius_units():
+    from symx import Interp, Leaf, Cell
+    from ringdom import leaves_of
+    from scen import ScenUnit, guarded
+    import tower_ref as TR
+    import units as U
+
+    DIM = {"Fq2": 2, "Fq6": 6, "Fq12": 12}
+    LVL = {"Fq2": 2, "Fq6": 6, "Fq12": 12}
+    cache = {}
+
+    def ref_matrix(level):
+        """columns: image of the i-th basis vector (flat coordinates) under x -> x^q"""
+        if level not in cache:
+            n = DIM[level]
+            cols = []
+            for i in range(n):
+                e = TR.from_flat(LVL[level], [1 if j == i else 0 for j in range(n)])
+                cols.append(list((e ** TR.Q).flat()))
+            cache[level] = cols
+        return cache[level]
+
+    def apply(cols, vec):
+        n = len(vec)
+        return [sum(cols[i][r] * vec[i] for i in range(n)) % TR.Q for r in range(n)]
+
+    def gen(level):
+        def g(tu):
+            f = tu.func(level + "::frobenius_map")
+            n = DIM[level]
+            for k in list(range(0, 14)) + [29, 4294967295]:
+                def run(path, k=k):
+                    d = RingDomain({"Fq", "BigInt<384>"}, consts=U.SHARED.get("consts"))
+                    I = Interp(tu, d)
+                    I.path = path
+                    I.scopes = [level]
+                    this, a = I.new_object(level), I.new_object(level)
+                    names = []
+                    for p, lf in leaves_of(a, "a", {}).items():
+                        lf.val = Poly.var(p)
+                        names.append(p)
+                    I.call(f, this, [a, Cell(k)])
+                    outs = [lf.val for p, lf in leaves_of(this, "this", {}).items()]
+                    # flat order of leaves_of matches tower_ref.flat(): c0.c0.c0, c0.c0.c1, ...
+                    cols = ref_matrix(level)
+                    obs = []
+                    lin = True
+                    M = [[0] * n for _ in range(n)]
+                    for r, o in enumerate(outs):
+                        if not isinstance(o, Poly):
+                            return [("output written", "fail", repr(o), None)]
+                        for mono, c in o.t.items():
+                            avars = [(v, e) for (v, e) in mono if v in names]
+                            kvars = [(v, e) for (v, e) in mono if v not in names]
+                            if len(avars) != 1 or avars[0][1] != 1:
+                                lin = False
+                                continue
+                            val = c % TR.Q
+                            for (v, e) in kvars:
+                                sv = d.sym_values.get(v)
+                                if sv is None:
+                                    lin = False
+                                    continue
+                                val = val * pow(sv.c[0], e, TR.Q) % TR.Q
+                            M[names.index(avars[0][0])][r] = (M[names.index(avars[0][0])][r] + val) % TR.Q
+                    obs.append(("frobenius_map(., %d) is an F_q-linear map of its input" % k, "ok" if lin else "fail", "", None))
+                    order = {"Fq2": 2, "Fq6": 6, "Fq12": 12}[level]
+                    ok = True
+                    for i in range(n):
+                        v = [1 if j == i else 0 for j in range(n)]
+                        for _ in range(k % order):
+                            v = apply(cols, v)
+                        if M[i] != v:
+                            ok = False
+                    obs.append(("matrix of frobenius_map(., %d) == matrix of x -> x^(q^%d) (reference tower)" % (k, k), "ok" if ok else "fail", "", None))
+                    return obs
+                yield "%s power=%d" % (level, k), guarded(run)
+        return g
+    us = []
+    for level in ("Fq2", "Fq6", "Fq12"):
+        us.append(ScenUnit(level + "::frobenius_map == q^k-power map (all inputs, all powers)", ["C04"], gen(level), targets=[level + "::frobenius_map"],
+                           contracts_used=["Fq::multiply / copy (C02)", "x -> x^q is F_q-linear (field theory)"]))
+    return us
+
+
+_tu0 = units
+
+
+def units():
+    return _tu0() + frobenius_units()
